@@ -876,3 +876,66 @@ def o_c04(run):
                             f'{r.ws[2]} image after fs-op {r.ws[1]}: acked={acked} inflight={infl}; client {c} recovered as {str(got.get(c))[:200]} ; allowed: ' + ' OR '.join(str(a.get(c))[:160] for a in allowed)))
     run.c04_stats = stats
     return out
+
+# --------------------------------------------------------------------------------------------- C17 (real binary)
+
+def o_c17(run):
+    out = []
+    if run.kv.get('binary') != '1':
+        return out
+    days, vers = int(run.kv.get('days', 14)), int(run.kv.get('versions', 100))
+    allow = run.kv.get('allow', 'none')
+    snap = None          # (ts, since) as the oracle tracks it
+    chain = []
+    restarted = False
+    walk = []
+    for r in run.recs:
+        m = r.meta or {}
+        if r.ws[0] == 'config':
+            iw = (r.impl or '').split()
+            ik = dict(w.split('=', 1) for w in iw[1:] if '=' in w)
+            exp_ports = sorted(m.get('expected_ports', '').split(','))
+            got_ports = sorted(a.split(':')[-1] for a in ik.get('listen', '').split(',') if a)
+            if iw[:1] != ['ok']:
+                out.append(fail('C17: the server starts with the given configuration and serves on every listen address', r, f'did not start: {r.impl}'))
+            elif exp_ports != got_ports:
+                out.append(fail('C17: it serves on every listen address given (and on no other)', r, f'expected ports {exp_ports}, listening {got_ports}'))
+            if iw[:1] == ['ok'] and ik.get('dir') in (None, '-'):
+                out.append(fail('C17: it keeps its data in the given directory', r, f'the directory was not created: {r.lhs[:200]}'))
+            continue
+        if r.ws[0] == 'restart':
+            restarted = True
+            if r.impl != 'ok':
+                out.append(fail('C17: a restart on the same directory serves', r, f'restart {r.impl}'))
+            continue
+        if r.ws[0] != 'http':
+            continue
+        ih = parse_http_obs(r.impl)
+        st = ih.get('status') if ih else None
+        if m.get('route') == 'index' and st != 200:
+            out.append(fail('C17: it serves on every listen address given', r, f'GET / on port #{m.get("port")} answered {st}'))
+        if m.get('unlisted') == '1' and st != 403:
+            out.append(fail('C17: it enforces exactly the given client-id allow-list', r, f'unlisted client answered {st} (allow-list {allow[:80]})'))
+        if m.get('op') == 'av' and m.get('unlisted') != '1':
+            if st != 200:
+                out.append(fail('C17: listed clients are served', r, f'AddVersion on the latest answered {st}'))
+                continue
+            want = urg_spec(days, vers, None if snap is None else (None, snap[0], snap[1]), r.now or 0)
+            got = {'-': 'none'}.get(ih.get('sr', '-'), ih.get('sr'))
+            if got != want and not restarted:
+                out.append(fail('C17: it applies the given snapshot targets when requesting snapshots', r, f'days={days} versions={vers} snapshot={snap}: expected urgency {want}, got {got}'))
+            if m.get('after-restart') != '1':
+                chain.append(ih.get('vid'))
+            if snap is not None:
+                snap = (snap[0], snap[1] + 1)
+        if m.get('op') == 'as' and st == 200:
+            snap = (r.now or 0, 0)
+        if m.get('op') == 'walk':
+            walk.append((st, ih.get('vid')))
+        if m.get('op') == 'gs' and restarted and snap is not None and st != 200:
+            out.append(fail('C17: a restart on the same directory serves the same history (snapshot)', r, f'GetSnapshot after restart answered {st}'))
+    if restarted and walk:
+        got = [v for (st, v) in walk if st == 200]
+        if got != chain or walk[-1][0] != 404:
+            out.append(fail('C17: a restart on the same directory serves the same history', None, f'chain before the kill: {chain}; walk after restart: {walk}'))
+    return out
